@@ -215,17 +215,14 @@ def build_model(driver):
         d = os.path.join(BUILD, "ocaml_" + driver)
         os.makedirs(d, exist_ok=True)
         srcs = [os.path.join(COQ, "ykmodel.ml"), os.path.join(COQ, "ykmodel.mli"),
-                os.path.join(VERIF, "ocaml", driver + ".ml")]
+                os.path.join(VERIF, "ocaml", "yutil.ml"), os.path.join(VERIF, "ocaml", driver + ".ml")]
         out = os.path.join(BUILD, driver)
         if os.path.exists(out) and all(os.path.getmtime(s) <= os.path.getmtime(out) for s in srcs):
             return True, "up to date"
         for s in srcs:
             sh(["cp", s, d])
-        rc, o = sh(["ocamlfind", "ocamlopt", "-O3", "-w", "-a", "ykmodel.mli", "ykmodel.ml",
+        rc, o = sh(["ocamlfind", "ocamlopt", "-w", "-a", "ykmodel.mli", "ykmodel.ml", "yutil.ml",
                     driver + ".ml", "-o", out], cwd=d, timeout=600)
-        if rc != 0:
-            rc, o = sh(["ocamlfind", "ocamlopt", "-w", "-a", "ykmodel.mli", "ykmodel.ml",
-                        driver + ".ml", "-o", out], cwd=d, timeout=600)
         return rc == 0, o
 
 
